@@ -26,6 +26,20 @@
 using std::size_t;
 using namespace primesieve;
 
+#if defined(PRIMESIEVE_VERIF)
+// Hooks for the verification harness (compiled in only with
+// -DPRIMESIEVE_VERIF): observe the pieces handed to the worker
+// threads, reduce the minimum thread distance so that piece
+// boundaries can be placed densely, plan without sieving.
+namespace primesieve {
+namespace verif {
+void (*pieceCallback)(uint64_t index, uint64_t start, uint64_t stop) = nullptr;
+uint64_t minThreadDistance = 0;
+bool planOnly = false;
+} // namespace verif
+} // namespace primesieve
+#endif
+
 namespace {
 
 counts_t& operator+=(counts_t& v1, const counts_t& v2)
@@ -71,6 +85,10 @@ int ParallelSieve::idealNumThreads() const
 
   uint64_t threshold = isqrt(stop_) / 5;
   threshold = std::max(threshold, config::MIN_THREAD_DISTANCE);
+#if defined(PRIMESIEVE_VERIF)
+  if (verif::minThreadDistance)
+    threshold = verif::minThreadDistance;
+#endif
   uint64_t threads = getDistance() / threshold;
   threads = inBetween(1, threads, numThreads_);
 
@@ -96,6 +114,10 @@ uint64_t ParallelSieve::getThreadDistance(int threads) const
 
   uint64_t threadDist = ((dist - 1) / iters) + 1;
   threadDist = std::max(threadDist, config::MIN_THREAD_DISTANCE);
+#if defined(PRIMESIEVE_VERIF)
+  if (verif::minThreadDistance)
+    threadDist = std::max(((dist - 1) / iters) + 1, verif::minThreadDistance);
+#endif
   threadDist += 30 - threadDist % 30;
 
   return threadDist;
@@ -166,6 +188,12 @@ void ParallelSieve::sieve()
         if (start > start_)
           start = align(start) + 1;
 
+#if defined(PRIMESIEVE_VERIF)
+        if (verif::pieceCallback)
+          verif::pieceCallback(i, start, stop);
+        if (verif::planOnly)
+          continue;
+#endif
         // Sieve the primes inside [start, stop]
         ps.sieve(start, stop);
         counts += ps.getCounts();
